@@ -164,13 +164,305 @@ def run_stream(h, res, name, cases, expect=None):
     return texts, models, impls
 
 
+# --------------------------------------------------------------------------- known findings
+KNOWN_IDENT = "C10-bool-null-prefix"
+KNOWN_BANG = "C10-bang-equals"
+
+
+def ident_in_known_class(name):
+    """mirrors known/C10.json class of C10-bool-null-prefix: a name that extends true/false/null"""
+    return re.match(r"^(true|false|null)[A-Za-z0-9_]+$", name) is not None
+
+
+def text_in_bang_class(text):
+    """mirrors known/C10.json class of C10-bang-equals: `!=` written directly after an operand"""
+    return re.search(r"(?<![\s.])!=", text) is not None and not text.startswith("!=")
+
+
+# --------------------------------------------------------------------------- tree streams
+def tree_stream(h, res, rng, n, depth, builtin_names):
+    tg = g.TreeGen(rng)
+    cases, meta = [], []
+    while len(cases) < n:
+        t = tg.tree(1 + rng.below(depth))
+        par, wn = g.random_oracles(rng, t)
+        cases.append(("tree", g.coq_render(t, par, 0, wn)))
+        meta.append((t, par, wn))
+    r = run_stream(h, res, "PARSE-tree", cases)
+    if not r:
+        return tg, meta, 0
+    texts, models, impls = r
+    twin_bad = rt_model_bad = rt_impl_bad = 0
+    first = None
+    for (t, par, wn), tx, m, im in zip(meta, texts, models, impls):
+        if tx is None:
+            continue
+        mine = g.Renderer(par, 0, wn).render(t)
+        exp = "E " + g.show(t)
+        if mine != tx:
+            twin_bad += 1
+            first = first or ("renderer twin", mine, tx)
+        if m != exp:
+            rt_model_bad += 1
+            first = first or ("model round trip", tx, m)
+        if im != exp and im == m:
+            rt_impl_bad += 1
+    st = res.streams["PARSE-tree"]
+    st.update({"renderer_twin_mismatches": twin_bad, "model_roundtrip_failures": rt_model_bad,
+               "node_histogram": dict(sorted(tg.hist.items())),
+               "text_bytes_max": max(len(x) for x in texts if x is not None)})
+    if twin_bad:
+        res.tie_broken("checks/c10_gen.py renderer and PrattRender.items_text disagree on %d trees" % twin_bad,
+                       "python=%r coq=%r" % (first[1], first[2]))
+    if rt_model_bad:
+        res.tie_broken("the model does not recover %d rendered trees (contradicts C10_pratt_roundtrip_all: "
+                       "generator produced a tree outside wf?)" % rt_model_bad, repr(first))
+    return tg, meta, len(cases) - st["mismatches"]
+
+
+def search_stream(h, res, rng, meta, layouts_per_tree):
+    """Implementation only: the minimally parenthesised text, the fully parenthesised text, random
+    redundant parentheses and random layout must all give the same AST."""
+    lines, info = [], []
+    for t, _, _ in meta:
+        need = g.text_level_parens(t)
+        base = g.Renderer(need, 0, set()).render(t)
+        full = g.Renderer(need, 1, set()).render(t)
+        variants = [("full", full)]
+        par, wn = g.random_oracles(rng, t, 1, 3)
+        rr = g.Renderer(par, 0, wn)
+        variants.append(("parens+not", rr.render(t)))
+        for _ in range(layouts_per_tree):
+            variants.append(("layout", g.fill(g.Renderer(need, 0, set()).parts(t), rng, 1, 2)))
+        variants.append(("layout+parens", g.fill(rr.parts(t), rng, 1, 2)))
+        variants.append(("statement-layout", rng.choice(["// lead\n", "\n\n", "  ", "\n// a\n// b\n", ""]) + base
+                         + rng.choice([" // trail", "\n", "  ", "\n\n// end", "\n// end\n", " //"])))
+        for kind, v in variants:
+            if v != base:
+                lines.append(c.hexs(base) + "\t" + c.hexs(v))
+                info.append((kind, base, v, t))
+    outs = c.harness_lines_resilient(h, "parse10eq", lines)
+    hist, known_bang, viol = {}, 0, 0
+    for (kind, base, v, t), o in zip(info, outs):
+        hist.setdefault(kind, {}).setdefault(o, 0)
+        hist[kind][o] += 1
+        if o == "SAME":
+            continue
+        if o == "REJECT-B" and text_in_bang_class(v) and not text_in_bang_class(base) and bang_open(res):
+            known_bang += 1
+            continue
+        viol += 1
+        if viol <= 3:
+            res.violation("layout / parenthesis variant of an expression parses differently (%s: %s)" % (kind, o),
+                          {"kind": "impl-law", "law": "AST(base) == AST(variant)", "base": base, "variant": v,
+                           "observed": o, "expected": "SAME", "variant_kind": kind,
+                           "rerun": "./check C10 --replay <this file>"})
+    res.streams["SEARCH-variants"] = {"pairs": len(lines), "outcomes": hist, "known_bang_equals": known_bang,
+                                      "violations": viol}
+    return len(lines)
+
+
+_open_cache = {}
+
+
+def bang_open(res):
+    if "bang" not in _open_cache:
+        _open_cache["bang"] = any(e.get("id") == KNOWN_BANG for e in c.open_known(PID))
+    return _open_cache["bang"]
+
+
+def ident_open():
+    if "ident" not in _open_cache:
+        _open_cache["ident"] = any(e.get("id") == KNOWN_IDENT for e in c.open_known(PID))
+    return _open_cache["ident"]
+
+
+def ident_names(rng, tier, builtin_names):
+    names = []
+    for w in g.RESERVED:
+        for ch in ("x", "Q", "7", "_"):
+            names.append(w + ch)
+            if not ch.isdigit():
+                names.append(ch + w)
+        names.append(w + w)
+        names.append(w.upper())
+        names.append(w.capitalize())
+        names.append(w + "_" + w)
+    names += ["trueish", "null_count", "android", "iffy", "falsey", "nothing", "donut", "orange", "returned",
+              "outputs", "elsewhere", "thence", "nullable", "truth", "fals", "nul", "i", "t", "_", "__", "_1",
+              "a1b2", "via_", "x_via", "wherever", "intox", "notify", "dot", "ifx", "if_", "or2", "and_1"]
+    alpha = "abcdefghijklmnopqrstuvwxyzABCDEFGHIJKLMNOPQRSTUVWXYZ_"
+    for _ in range(40 if tier == "quick" else 400):
+        n = rng.choice(alpha) + "".join(rng.choice(alpha + "0123456789") for _ in range(rng.below(8)))
+        names.append(n)
+    skip = set(g.RESERVED) | set(builtin_names) | {"inf", "infinity", "pi", "e", "tau", "nan", "via", "into", "where",
+                                                   "inputs", "constants", "max_value", "min_value"}
+    out = []
+    for n in names:
+        if n not in skip and n not in out:
+            out.append(n)
+    return out
+
+
+def ident_templates(N):
+    i = ("id", N)
+    five = ("num", 5)
+    asg = ("assign", N, five)
+    T = [
+        ("%s = 5\n%s + 1", [asg, ("bin", "Add", i, ("num", 1))]),
+        ("%s = 5\n1 + %s", [asg, ("bin", "Add", ("num", 1), i)]),
+        ("%s = 5\ny = -%s", [asg, ("assign", "y", ("un", "Negate", i))]),
+        ("%s = 5\nnot %s", [asg, ("un", "Not", i)]),
+        ("%s = 5\n!%s", [asg, ("un", "Not", i)]),
+        ("%s = 5\n%s!", [asg, ("fact", i)]),
+        ("%s = 5\n[%s, %s]", [asg, ("list", [i, i])]),
+        ("%s = 5\n[...%s]", [asg, ("list", [("spread", i)])]),
+        ("%s = 5\n{k: %s}", [asg, ("rec", [("static", "k", i)])]),
+        ("%s = 5\n{%s}", [asg, ("rec", [("short", N, None)])]),
+        ("%s = 5\n{%s: 1}", [asg, ("rec", [("static", N, ("num", 1))])]),
+        ("%s = 5\nfoo(%s)", [asg, ("call", ("id", "foo"), [i])]),
+        ("%s = 5\n%s(1)", [asg, ("call", i, [("num", 1)])]),
+        ("%s = 5\n%s.f", [asg, ("dot", i, "f")]),
+        ("%s = 5\nq.%s", [asg, ("dot", ("id", "q"), N)]),
+        ("%s = 5\n%s[0]", [asg, ("idx", i, ("num", 0))]),
+        ("%s = 5\nq[%s]", [asg, ("idx", ("id", "q"), i)]),
+        ("%s = 5\nif %s then %s else %s", [asg, ("cond", i, i, i)]),
+        ("%s = 5\n(%s)", [asg, i]),
+        ("%s = 5\n(%s) * 2", [asg, ("bin", "Multiply", i, ("num", 2))]),
+        ("(%s) => %s", [("lam", [("req", N)], i)]),
+        ("%s => %s + 1", [("lam", [("req", N)], ("bin", "Add", i, ("num", 1)))]),
+        ("%s = 5\ndo {\n  y = %s\n  return %s\n}", [asg, ("do", [("assign", "y", i)], i)]),
+        ("%s = 5\ny = %s", [asg, ("assign", "y", i)]),
+        ("%s = 5\n%s and %s", [asg, ("bin", "NaturalAnd", i, i)]),
+        ("%s = 5\n%s via %s", [asg, ("bin", "Via", i, i)]),
+        ("%s = 5\n%s == %s", [asg, ("bin", "Equal", i, i)]),
+        ("%s = 5\nq ?? %s", [asg, ("bin", "Coalesce", ("id", "q"), i)]),
+        ("%s = 5\n%s", [asg, i]),
+    ]
+    out = []
+    for fmt, exp in T:
+        src = fmt.replace("%s", N)
+        out.append((src, " ;; ".join("E " + g.show(e) for e in exp)))
+    return out
+
+
+def ident_stream(h, res, rng, tier, builtin_names):
+    names = ident_names(rng, tier, builtin_names)
+    lines, info = [], []
+    for n in names:
+        for src, exp in ident_templates(n):
+            lines.append(c.hexs(src))
+            info.append((n, src, exp))
+    outs = c.harness_lines_resilient(h, "parse10", lines)
+    ev_lines = [c.hexs("%s = 5\n%s + 1" % (n, n)) for n in names]
+    ev = c.harness_lines_resilient(h, "eval", ev_lines)
+    fails, known, viol = {}, 0, 0
+    for (n, src, exp), o in zip(info, outs):
+        if o != exp:
+            fails.setdefault(n, []).append((src, o, exp))
+    for n, o in zip(names, ev):
+        body = o.split(";ENV:")[0]
+        if body != "OK:N4014000000000000|OK:N4018000000000000":
+            fails.setdefault(n, []).append(("%s = 5\n%s + 1" % (n, n), body, "5 then 6"))
+    for n, fl in fails.items():
+        if ident_in_known_class(n) and ident_open():
+            known += 1
+            continue
+        viol += 1
+        if viol <= 3:
+            src, o, exp = fl[0]
+            res.violation("a plain name cannot be bound and then referenced (%s)" % n,
+                          {"kind": "impl-law", "law": "bind then reference", "name": n, "program": src,
+                           "observed": o, "expected": exp, "failing_templates": len(fl),
+                           "rerun": "./check C10 --replay <this file>"})
+    ok_known_class = sum(1 for n in names if ident_in_known_class(n) and n not in fails)
+    res.streams["SEARCH-identifiers"] = {"names": len(names), "programs": len(lines) + len(ev_lines),
+                                         "names_failing": len(fails), "in_known_class": known,
+                                         "known_class_names_that_work": ok_known_class, "violations": viol,
+                                         "sample_names": names[:12]}
+    return len(lines) + len(ev_lines)
+
+
+def spelling_stream(h, res, rng):
+    vals = ["true", "false", "1", '"s"', "null", "[true, false]", "[false]", "nope", "(1 > 2)", "[]"]
+    progs = []
+    for a in vals:
+        progs.append(("not %s" % a, "!%s" % a))
+        progs.append(("not not %s" % a, "!!%s" % a))
+        for b in vals:
+            progs.append(("%s and %s" % (a, b), "%s && %s" % (a, b)))
+            progs.append(("%s or %s" % (a, b), "%s || %s" % (a, b)))
+            progs.append(("not %s and %s" % (a, b), "!%s && %s" % (a, b)))
+            progs.append(("%s or %s and not %s" % (a, b, a), "%s || %s && !%s" % (a, b, a)))
+            progs.append(("[%s] where x => x and %s" % (a, b), "[%s] where x => x && %s" % (a, b)))
+    lines = []
+    for w, sy in progs:
+        lines += [c.hexs(w), c.hexs(sy)]
+    outs = c.harness_lines_resilient(h, "eval", lines)
+    viol = 0
+    oks = 0
+    for k, (w, sy) in enumerate(progs):
+        ow, os_ = outs[2 * k], outs[2 * k + 1]
+        if ow.startswith("OK") and ow == os_:
+            oks += 1
+        if ow != os_:
+            viol += 1
+            if viol <= 3:
+                res.violation("word and symbol spellings evaluate differently",
+                              {"kind": "impl-law", "law": "eval(word spelling) == eval(symbol spelling)",
+                               "program": w, "program_b": sy, "observed": ow, "expected": os_})
+    res.streams["SEARCH-spelling"] = {"pairs": len(progs), "both_ok_and_equal": oks, "violations": viol}
+    return len(lines)
+
+
+def corpus_stream(h, res):
+    d = os.path.join(c.VERIF, "corpus", PID)
+    n = 0
+    for fn in sorted(os.listdir(d)) if os.path.isdir(d) else []:
+        if not fn.endswith(".json"):
+            continue
+        with open(os.path.join(d, fn)) as f:
+            case = json.load(f)
+        n += 1
+        if case.get("kind") == "parse-eq":
+            o = c.harness_lines_resilient(h, "parse10eq", [c.hexs(case["base"]) + "\t" + c.hexs(case["variant"])])[0]
+        else:
+            o = c.harness_lines_resilient(h, "parse10", [c.hexs(case["program"])])[0]
+        if o != case["expected"]:
+            kn = case.get("known")
+            if kn and any(e.get("id") == kn for e in c.open_known(PID)):
+                continue
+            res.violation("corpus case %s: %s" % (fn, case.get("what", "")),
+                          dict(case, observed=o, rerun="./check C10 --replay <this file>"))
+    res.streams["corpus"] = {"cases": n}
+    return n
+
+
+def known_step(h, res):
+    for e in c.open_known(PID):
+        w = e.get("witness", {})
+        if e.get("id") == KNOWN_IDENT:
+            o = c.harness_lines_resilient(h, "parse10", [c.hexs(w["program"])])[0]
+            still = (o == "REJECT")
+            res.known("%s: `%s` binds but the reference does not parse (bool/null literal matched without a word "
+                      "boundary)%s" % (e["id"], w["program"].replace("\n", " ; "),
+                                       "" if still else " (no longer reproduces)"))
+        elif e.get("id") == KNOWN_BANG:
+            o = c.harness_lines_resilient(h, "parse10eq", [c.hexs(w["base"]) + "\t" + c.hexs(w["variant"])])[0]
+            still = (o != "SAME")
+            res.known("%s: `%s` is rejected while `%s` parses (postfix `!` swallows the `!` of `!=`)%s"
+                      % (e["id"], w["variant"], w["base"], "" if still else " (no longer reproduces)"))
+        else:
+            res.known("%s %s" % (e.get("id"), e.get("what", "")))
+
+
 def main(argv):
     tier, seed, replay = c.tier_and_seed(argv)
     res = c.Result(PID, tier, seed)
     rng = c.Rng(seed)
     try:
         h = c.build_harness()
-        c.regen_builtins(h)
+        builtin_names = c.regen_builtins(h)
         info = regen_prec(h)
     except c.BrokenTie as e:
         res.tie_broken(e.what, e.detail)
@@ -178,6 +470,9 @@ def main(argv):
     if replay:
         return do_replay(h, replay)
     res.streams["translator"] = info
+    bad_ids = [x for x in g.IDENTS if x in builtin_names]
+    if bad_ids:
+        res.tie_broken("generator identifiers collide with built-in names", ",".join(bad_ids))
 
     c.proof_step(res, PID)
 
@@ -188,18 +483,40 @@ def main(argv):
 
     evaluations = 0
     validated = 0
-    # ---- FLAT: exhaustive operator sequences
+    evaluations += corpus_stream(h, res)
+    # ---- FLAT: exhaustive operator sequences, model vs implementation
     fc = flat_cases(tier, rng)
     r = run_stream(h, res, "PARSE-flat", fc)
     if r:
         evaluations += len(fc)
         validated += len(fc) - res.streams["PARSE-flat"]["mismatches"]
+    # ---- TREE: random deep trees, rendered by the model, round trip + model vs implementation
+    ntree = 1500 if tier == "quick" else 20000
+    tg, meta, ok = tree_stream(h, res, rng, ntree, 5, builtin_names)
+    evaluations += len(meta)
+    validated += ok
+    # ---- searches on the implementation alone
+    evaluations += search_stream(h, res, rng, meta, 2 if tier == "quick" else 4)
+    evaluations += ident_stream(h, res, rng, tier, builtin_names)
+    evaluations += spelling_stream(h, res, rng)
 
+    known_step(h, res)
     res.coverage["evaluations"] = evaluations
-    res.coverage["distinct_nontrivial"] = len({e for _, e in fc})
-    res.coverage["rule"] = "distinct token streams / texts that reach the Pratt parser"
+    res.coverage["distinct_nontrivial"] = (len({e for _, e in fc}) + len({g.show(t) for t, _, _ in meta
+                                                                           if t[0] not in ("id", "num", "str", "bool",
+                                                                                           "null", "inref", "builtin")}))
+    res.coverage["rule"] = ("distinct token streams (exhaustive operator pairs/triples/affix combinations) plus distinct "
+                            "random trees with at least one operator or nested form, each parsed by the real parser; "
+                            "searches (variants, identifiers, spellings) counted in evaluations only")
     res.coverage["traces_validated_against_impl"] = validated
-    res.coverage["samples"] = []
+    res.coverage["samples"] = [{"text": g.Renderer(p, 0, w).render(t)} for t, p, w in meta[:5]]
+    res.assumptions = [
+        "character level (pest PEG engine, WHITESPACE/NEWLINE/comment rules, identifier rule) is not modelled: decided "
+        "by the correspondence and the layout / identifier searches on the real parser",
+        "comments are dropped (pairs_to_expr); comment preservation is property C09's subject",
+        "names of built-in functions and constants (sum, pi, inf, ...) are outside the identifier generator: binding "
+        "them is rejected or shadowed by design (C03 / F30)",
+    ]
     return res.finish()
 
 
@@ -207,7 +524,23 @@ def do_replay(h, path):
     with open(path) as f:
         rp = json.load(f)
     print(json.dumps(rp, indent=1))
-    return 0
+    rc = 0
+    if rp.get("base") is not None and rp.get("variant") is not None:
+        o = c.harness_lines_resilient(h, "parse10eq", [c.hexs(rp["base"]) + "\t" + c.hexs(rp["variant"])])[0]
+        print("implementation now: parse10eq ->", o)
+        for k in ("base", "variant"):
+            print(" ", k, "->", c.harness_lines_resilient(h, "parse10", [c.hexs(rp[k])])[0])
+        rc = 0 if o == rp.get("expected", "SAME") else 1
+    elif rp.get("program_b") is not None:
+        a = c.harness_lines_resilient(h, "eval", [c.hexs(rp["program"])])[0]
+        b = c.harness_lines_resilient(h, "eval", [c.hexs(rp["program_b"])])[0]
+        print("implementation now:", a, "vs", b)
+        rc = 0 if a == b else 1
+    elif rp.get("program") is not None:
+        o = c.harness_lines_resilient(h, "parse10", [c.hexs(rp["program"])])[0]
+        print("implementation now: parse10 ->", o)
+        rc = 0 if o == rp.get("expected") else 1
+    return rc
 
 
 if __name__ == "__main__":
